@@ -284,7 +284,7 @@ impl<'a> St<'a> {
                 if verdict != "same" {
                     let n = self.r.dist.keys().filter(|k| k.starts_with("reparse.example/")).count();
                     if n < 12 {
-                        self.r.count(&format!("reparse.example/{dn}/{verdict}/{}", trunc(&text, 160)));
+                        self.r.count(&format!("reparse.example/{dn}/{verdict}/{}", trunc(&text, 700)));
                     }
                 }
             }
